@@ -287,5 +287,9 @@ FIXED = [
     ("annotated-secret-assigned-a-public", 'from nada_dsl import *\n\ndef nada_main():\n    p = Party(name="P")\n    u = PublicInteger(Input(name="u", party=p))\n    s = SecretInteger(Input(name="s", party=p))\n    x: SecretInteger = u\n    y = x + s\n    z = x * u\n    return [Output(y, "y", p), Output(z, "z", p)]\n'),
     ("annotated-public-assigned-a-literal", 'from nada_dsl import *\n\ndef nada_main():\n    p = Party(name="P")\n    s = SecretInteger(Input(name="s", party=p))\n    k: PublicInteger = Integer(3)\n    w = k * k\n    return [Output(s * w, "o", p)]\n'),
     ("module-level-name-rebound-after-a-helper-used-it", 'from nada_dsl import *\n\nk = Integer(2)\n\ndef scale(x: SecretInteger) -> SecretInteger:\n    return x * k\n\nk = 5\n\ndef nada_main():\n    p = Party(name="P")\n    s = SecretInteger(Input(name="s", party=p))\n    y = scale(s)\n    return [Output(y, "o", p)]\n'),
+    # a loop variable that shadows an earlier name and is read after the loop (ninth seeding round)
+    ("loop-variable-shadows-a-name-read-afterwards", 'from nada_dsl import *\n\ndef nada_main():\n    p = Party(name="P")\n    v = SecretInteger(Input(name="v", party=p))\n    t = v + v\n    for v in range(3):\n        t = t + t\n    kept = v\n    w = kept + 1\n    return [Output(t, "o", p)]\n'),
+    ("loop-variable-read-after-the-loop", 'from nada_dsl import *\n\ndef nada_main():\n    p = Party(name="P")\n    s = SecretInteger(Input(name="s", party=p))\n    t = s\n    for i in range(2):\n        t = t + s\n    last = i\n    n = last * 2\n    return [Output(t, "o", p)]\n'),
+    ("nested-loops-reusing-the-variable", 'from nada_dsl import *\n\ndef nada_main():\n    p = Party(name="P")\n    s = SecretInteger(Input(name="s", party=p))\n    i = s\n    t = i + s\n    for i in range(2):\n        for j in range(2):\n            t = t + s\n        k = i + j\n    m = i\n    return [Output(t, "o", p)]\n'),
     ("typed-constructor-of-int", 'from nada_dsl import *\n\ndef nada_main():\n    p = Party(name="P")\n    s = SecretInteger(Input(name="s", party=p))\n    n = 3\n    a = PublicInteger(10)\n    b = SecretInteger(n + 1)\n    return [Output(s, "o", p)]\n'),
 ]
